@@ -21,6 +21,13 @@ SPEC = dict(
         "SymVerif.C05.powint_zero_neg",
         # (d) normal forms are unique (equal value <=> equal tree dump)
         "SymVerif.C05.normal_form_unique",
+        "SymVerif.C05.good_unique",
+        "SymVerif.C05.add_comm_exact",
+        "SymVerif.C05.mul_comm_exact",
+        "SymVerif.C05.add_assoc_exact",
+        "SymVerif.C05.mul_assoc_exact",
+        "SymVerif.C05.mul_add_exact",
+        "SymVerif.C05.sub_add_cancel_exact",
         # (e) loop invariant of pow_number (binary exponentiation with the unsigned long mask)
         "SymVerif.C05.pow_number_invariant",
         "SymVerif.C05.powNumber_good",
